@@ -230,6 +230,9 @@ func CheckC14(e *fw.Env, l *Lab) {
 		o := run.Do(w, ctx, t, m)
 		judge(o, false, "", hs)
 		e.Res.Sig("attr|%s|%s|%s", hs.RouteCls, hs.FeeCls, outcomeClass(o))
+		if i%3 == 0 {
+			aftermath(e, l, ctx, t, hs)
+		}
 	}
 	// 5. envelopes: arbitrary port / channel identifiers (mode C only).
 	ids := []string{"", "transfer", "channel-0", "channel-1", "channel-18446744073709551615", "channel-18446744073709551616",
